@@ -32,6 +32,8 @@ pub enum Node {
     Number(i64),
 }
 
+const OVERFLOW: &str = "Integer overflow";
+
 fn gcd(expr1: i64, expr2: i64) -> i64 {
     let mut a = expr1;
     let mut b = expr2;
@@ -60,30 +62,57 @@ pub fn eval(expr: Node) -> Result<i64, Box<dyn error::Error>> {
         Number(i) => Ok(i),
         And(expr1, expr2) => Ok(eval(*expr1)? & eval(*expr2)?),
         Or(expr1, expr2) => Ok(eval(*expr1)? | eval(*expr2)?),
-        LeftShift(expr1, expr2) => Ok(eval(*expr1)? << eval(*expr2)?),
-        RightShift(expr1, expr2) => Ok(eval(*expr1)? >> eval(*expr2)?),
-        Add(expr1, expr2) => Ok(eval(*expr1)? + eval(*expr2)?),
-        Subtract(expr1, expr2) => Ok(eval(*expr1)? - eval(*expr2)?),
-        Multiply(expr1, expr2) => Ok(eval(*expr1)? * eval(*expr2)?),
-        Divide(expr1, expr2) => Ok(eval(*expr1)? / eval(*expr2)?),
-        Modulo(expr1, expr2) => Ok(eval(*expr1)? % eval(*expr2)?),
-        Negative(expr1) => Ok(-(eval(*expr1)?)),
-        Pow(expr1, expr2) => Ok(eval(*expr1)?.pow(eval(*expr2)? as u32)),
+        LeftShift(expr1, expr2) => {
+            let value = eval(*expr1)?;
+            let count = eval(*expr2)?;
+            if !(0..=63).contains(&count) {
+                return Err("Shift count out of range".into());
+            }
+            Ok(i64::try_from((value as i128) << count).map_err(|_| OVERFLOW)?)
+        }
+        RightShift(expr1, expr2) => {
+            let value = eval(*expr1)?;
+            let count = eval(*expr2)?;
+            if !(0..=63).contains(&count) {
+                return Err("Shift count out of range".into());
+            }
+            Ok(value >> count)
+        }
+        Add(expr1, expr2) => Ok(eval(*expr1)?.checked_add(eval(*expr2)?).ok_or(OVERFLOW)?),
+        Subtract(expr1, expr2) => Ok(eval(*expr1)?.checked_sub(eval(*expr2)?).ok_or(OVERFLOW)?),
+        Multiply(expr1, expr2) => Ok(eval(*expr1)?.checked_mul(eval(*expr2)?).ok_or(OVERFLOW)?),
+        Divide(expr1, expr2) => Ok(eval(*expr1)?
+            .checked_div(eval(*expr2)?)
+            .ok_or("Division by zero or overflow")?),
+        Modulo(expr1, expr2) => {
+            let dividend = eval(*expr1)?;
+            let divisor = eval(*expr2)?;
+            if divisor == 0 {
+                return Err("Division by zero".into());
+            }
+            Ok(dividend.wrapping_rem(divisor))
+        }
+        Negative(expr1) => Ok(eval(*expr1)?.checked_neg().ok_or(OVERFLOW)?),
+        Pow(expr1, expr2) => {
+            let base = eval(*expr1)?;
+            let exponent = u32::try_from(eval(*expr2)?).map_err(|_| "Exponent out of range")?;
+            Ok(base.checked_pow(exponent).ok_or(OVERFLOW)?)
+        }
         Factorial(sub_expr) => {
             let sub_result = eval(*sub_expr)?;
             if sub_result >= 0 {
-                let mut factorial_result = 1;
-                for i in 2..=(sub_result as usize) {
+                let mut factorial_result: i64 = 1;
+                for i in 2..=sub_result {
                     #[cfg(feature = "verif_hooks")]
                     crate::verif_hooks::tick();
-                    factorial_result *= i as i64;
+                    factorial_result = factorial_result.checked_mul(i).ok_or(OVERFLOW)?;
                 }
                 Ok(factorial_result)
             } else {
                 Ok(0)
             }
         }
-        Abs(sub_expr) => Ok(eval(*sub_expr)?.abs()),
+        Abs(sub_expr) => Ok(eval(*sub_expr)?.checked_abs().ok_or(OVERFLOW)?),
         Sqrt(sub_expr) => {
             let before_sqr = eval(*sub_expr)? as f64;
             Ok(before_sqr.sqrt() as i64)
@@ -107,6 +136,8 @@ pub fn eval(expr: Node) -> Result<i64, Box<dyn error::Error>> {
             let result = eval(*sub_expr)?;
             if result < 0 {
                 Ok(0)
+            } else if result >= 63 {
+                Err(OVERFLOW.into())
             } else {
                 Ok(1 << result)
             }
@@ -180,12 +211,12 @@ pub fn eval(expr: Node) -> Result<i64, Box<dyn error::Error>> {
             }
         }
         Avg(args) => {
-            let mut result = 0;
+            let mut result: i128 = 0;
             for arg in <Vec<Node> as Clone>::clone(&args).into_iter() {
-                result += eval(arg).unwrap();
+                result += eval(arg).unwrap() as i128;
             }
-            let len = args.len() as i64;
-            Ok(result / len)
+            let len = args.len() as i128;
+            Ok((result / len) as i64)
         }
         Med(args) => {
             let mut results = vec![];
@@ -195,7 +226,7 @@ pub fn eval(expr: Node) -> Result<i64, Box<dyn error::Error>> {
             results.sort_by(|a, b| a.partial_cmp(b).unwrap());
             let len = results.len();
             if len % 2 == 0 {
-                Ok((results[len >> 1] + results[(len >> 1) - 1]) / 2)
+                Ok(((results[len >> 1] as i128 + results[(len >> 1) - 1] as i128) / 2) as i64)
             } else {
                 Ok(results[len >> 1])
             }
